@@ -37,7 +37,7 @@ const char *mc_rule = "part A: DFS grid width 0..9 x id set (0, 2^k-1, 2^k, 2^k+
                       "nontrivial = id occupies the most significant header byte or does not fit. "
                       "part B: BFS over histories of arm (context width; in the :altarm jobs additionally once per history with id length 0, width-1, width+1, 4 or 5)/reply/context_reply/defer/handle reply/handle release/addref/unref x transport accepts|rejects on a fresh mpt_reply_deferrable context, "
                       "canonical-state dedupe; nontrivial = distinct (history, op) steps executed while a request is deferred, was rejected by the transport before, or a second request exists. "
-                      "part C: DFS over 1..2 requests x {zero id, id} x 7 handler scripts x 2 open modes x {one by one, queued together} through mpt_stream_input on a socketpair; nontrivial = two requests or a script other than none/reply";
+                      "part C: DFS over 1..2 requests x {zero id, id} x 7 handler scripts x {handler returns 0, returns an error} x 2 open modes, two further dispatch rounds after every delivery, x {one by one, queued together} through mpt_stream_input on a socketpair; nontrivial = two requests or a script other than none/reply";
 
 // =====================================================================
 // Part A
@@ -496,8 +496,8 @@ struct SMirror { const void *in_vptr; uintptr_t ref; mpt::stream data; const voi
 enum Script { S_NONE, S_REPLY, S_REPLY_TWICE, S_BUSY, S_BUSY_RETRY, S_DEFER, S_CREPLY, S_NSCRIPT };
 static const char *scriptnm[] = {"no answer", "reply(msg)", "reply(msg) twice", "reply(msg) while an outgoing message is open", "reply(msg) while busy, finish message, retry", "defer() then no answer", "mpt_context_reply"};
 
-struct SReq { std::vector<uint8_t> id; bool wants; int script; int r1, r2; bool handled, had_ctx, deferred_handle; int onwire; };
-struct SCase { Run *r; int idlen; std::vector<SReq> rq; size_t next; SMirror *sm; bool layout_bad; bool busy_left; };
+struct SReq { std::vector<uint8_t> id; bool wants; int script; bool fail; int r1, r2; bool handled, had_ctx, deferred_handle; int onwire, delivered; };
+struct SCase { Run *r; int idlen; std::vector<SReq> rq; size_t next; SMirror *sm; bool layout_bad; bool busy_left; int stray; };
 
 static std::vector<uint8_t> cobs(const std::vector<uint8_t> &in)
 {
@@ -522,12 +522,16 @@ static bool uncobs(const uint8_t *p, size_t n, std::vector<uint8_t> &out)
 static int stream_handler(void *arg, mpt::event *ev)
 {
 	SCase &c = *(SCase *) arg;
-	if (c.next >= c.rq.size()) return 0;
-	SReq &q = c.rq[c.next++];
-	q.handled = true;
+	// the payload names the request, so a message that is dispatched again is attributed to the same request and handled the same way again
+	uint8_t pl[2] = {0, 0};
+	if (!ev->msg) return 0;
+	mpt::message body = *ev->msg;
+	if (mpt::mpt_message_read(&body, 2, pl) < 2 || pl[0] != 'r' || pl[1] < '0' || (size_t) (pl[1] - '0') >= c.rq.size()) { ++c.stray; return 0; }
+	SReq &q = c.rq[pl[1] - '0'];
+	q.handled = true; ++q.delivered;
 	mpt::reply_context *rc = ev->reply;
 	q.had_ctx = rc != 0;
-	if (!rc) return 0;
+	if (!rc) return q.fail ? mpt::BadOperation : 0;
 	if ((void *) rc != (void *) &c.sm->rc_vptr || c.sm->max != c.idlen) { c.layout_bad = true; return 0; }
 	mpt::msgtype hdr(mpt::msgtype::Answer, 0);
 	mpt::message m(&hdr, sizeof(hdr));
@@ -539,22 +543,22 @@ static int stream_handler(void *arg, mpt::event *ev)
 	case S_DEFER: q.deferred_handle = LIB(rc->defer()) != 0; break;
 	case S_CREPLY: q.r1 = LIB(mpt::mpt_context_reply(rc, 3, "%s", "text")); break;
 	}
-	return 0;
+	return q.fail ? mpt::BadOperation : 0;
 }
 static void stream_case(Run &r, Ctx &x, int idlen)
 {
-	SCase c; c.r = &r; c.idlen = idlen; c.next = 0; c.sm = 0; c.layout_bad = false; c.busy_left = false;
+	SCase c; c.r = &r; c.idlen = idlen; c.next = 0; c.sm = 0; c.layout_bad = false; c.busy_left = false; c.stray = 0;
 	bool enc_mode = x.choose(2) != 0;               // 0: RdWr|Buffer as every caller in the tree passes it; 1: Write|RdWr|Buffer (installs the output encoder)
 	size_t n = 1 + x.choose(2);
 	for (size_t k = 0; k < n; ++k) {
-		SReq q; q.wants = x.choose(2) == 0; q.script = (int) x.choose(S_NSCRIPT); q.r1 = q.r2 = 1; q.handled = q.had_ctx = q.deferred_handle = false; q.onwire = 0;
+		SReq q; q.wants = x.choose(2) == 0; q.script = (int) x.choose(S_NSCRIPT); q.fail = x.choose(2) != 0; q.r1 = q.r2 = 1; q.handled = q.had_ctx = q.deferred_handle = false; q.onwire = 0; q.delivered = 0;
 		q.id.assign(idlen, 0);
 		if (q.wants) { for (int i = 0; i < idlen; ++i) q.id[i] = (uint8_t) (0x11 * (i + 1) + k); q.id[0] = idlen > 1 ? (k ? 0x7f : 0x00) : (uint8_t) (k ? 0x7e : 0x01); q.id[idlen - 1] = idlen > 1 ? (uint8_t) (5 + k) : q.id[0]; }
 		c.rq.push_back(q);
 	}
 	bool together = n > 1 && x.choose(2) != 0;
 	std::string desc = fmt("stream input idlen=%d mode=%s%s:", idlen, enc_mode ? "Write|RdWr|Buffer" : "RdWr|Buffer", together ? " both requests queued before dispatch" : "");
-	for (auto &q : c.rq) desc += " [id " + hex(q.id.data(), idlen) + ", handler: " + scriptnm[q.script] + "]";
+	for (auto &q : c.rq) desc += " [id " + hex(q.id.data(), idlen) + ", handler: " + scriptnm[q.script] + (q.fail ? ", returns an error" : "") + "]";
 	r.note("%s", desc.c_str());
 	++r.transitions;
 	int sv[2];
@@ -566,14 +570,17 @@ static void stream_case(Run &r, Ctx &x, int idlen)
 	mpt::input *in = LIB(mpt::mpt_stream_input(&sock, (enc_mode ? 0x3 : mpt::stream::RdWr) | mpt::stream::Buffer, mpt::EncodingCobs, idlen));
 	if (!in) { close(sv[0]); close(sv[1]); r.incomplete("mpt_stream_input failed"); return; }
 	c.sm = (SMirror *) in;
-	auto send = [&](const SReq &q) { std::vector<uint8_t> m(q.id); m.push_back('r'); m.push_back('q'); std::vector<uint8_t> e = cobs(m); return write(sv[1], e.data(), e.size()) == (ssize_t) e.size(); };
+	auto send = [&](const SReq &q) { std::vector<uint8_t> m(q.id); m.push_back('r'); m.push_back((uint8_t) ('0' + (&q - &c.rq[0]))); std::vector<uint8_t> e = cobs(m); return write(sv[1], e.data(), e.size()) == (ssize_t) e.size(); };
+	auto round = [&](bool poll) {
+		if (poll) LIB(in->next(POLLIN));
+		int ret = LIB(in->dispatch(stream_handler, &c));
+		if (c.busy_left) { LIB(mpt::mpt_stream_push(&c.sm->data, 0, 0)); c.busy_left = false; }   // the handler's own message ends after the dispatch
+		return ret;
+	};
 	auto pump = [&]() {
-		for (int guard = 0; guard < 8; ++guard) {
-			LIB(in->next(POLLIN));
-			int ret = LIB(in->dispatch(stream_handler, &c));
-			if (c.busy_left) { LIB(mpt::mpt_stream_push(&c.sm->data, 0, 0)); c.busy_left = false; }   // the handler's own message ends after the dispatch
-			if (ret < 0 || !(ret & mpt::event::Retry)) break;
-		}
+		for (int guard = 0; guard < 8; ++guard) { int ret = round(true); if (ret < 0 || !(ret & mpt::event::Retry)) break; }
+		// the event loop comes back: further dispatch rounds without new input must not deliver (and answer) anything again
+		for (int extra = 0; extra < 2; ++extra) round(false);
 	};
 	bool ok = true;
 	if (together) { for (auto &q : c.rq) ok = ok && send(q); pump(); }
@@ -609,7 +616,12 @@ static void stream_case(Run &r, Ctx &x, int idlen)
 	}
 	bool nontriv = n > 1;
 	for (auto &q : c.rq) {
-		if (!q.handled) { r.count("stream: request not delivered to the handler (not flagged)"); continue; }
+		if (!q.handled) {
+			if (q.wants) { r.violation("stream.dispatch|pending|request-starved", desc + " request id " + hex(q.id.data(), idlen) + " was never dispatched (no reply context, no default reply);" + wtxt); return; }
+			r.count("stream: zero-id request not delivered to the handler (not flagged)"); continue;
+		}
+		if (q.delivered > 1) r.count("stream: request dispatched more than once (replies checked on the wire)");
+		if (q.fail) { nontriv = true; r.count(q.onwire ? "stream: handler returned an error, exactly one reply on the wire" : "stream: handler returned an error, no reply on the wire"); }
 		if (!q.wants) { r.count(q.had_ctx ? "stream: zero id got a reply context (not flagged)" : "stream: zero id, no reply context, nothing sent"); continue; }
 		if (!q.had_ctx) { r.count("stream: no reply context offered (not flagged)"); continue; }
 		if (q.script != S_NONE && q.script != S_REPLY) nontriv = true;
@@ -642,7 +654,7 @@ static void stream_case(Run &r, Ctx &x, int idlen)
 	++r.states;
 }
 // =====================================================================
-static const int quick_idlen[] = {1, 2, 3, 4, 5, 8};
+static const int quick_idlen[] = {1, 2, 3, 4, 5, 8, 9};
 static const int thorough_idlen[] = {1, 2, 3, 4, 5, 8, 9, 16, 255};
 void mc_jobs(Tier t, std::vector<std::string> &jobs)
 {
@@ -652,7 +664,7 @@ void mc_jobs(Tier t, std::vector<std::string> &jobs)
 	if (t == Quick) for (int l : quick_idlen) for (int tg = 1; tg >= 0; --tg) jobs.push_back(fmt("proto:idlen=%d:target=%d:altarm", l, tg));
 	else for (int l : thorough_idlen) for (int tg = 1; tg >= 0; --tg) jobs.push_back(fmt("proto:idlen=%d:target=%d:altarm", l, tg));
 	for (int w = 0; w <= 9; ++w) jobs.push_back(fmt("ids:w=%d", w));
-	for (int l : {1, 2, 4, 5, 8}) jobs.push_back(fmt("stream:idlen=%d", l));
+	for (int l : {1, 2, 4, 5, 8, 9, 12, 16}) jobs.push_back(fmt("stream:idlen=%d", l));
 }
 static int proto_setup(Tier t, const std::string &job)
 {
@@ -701,7 +713,7 @@ void mc_explore(Run &r, const std::string &job)
 		int l = atoi(job.c_str() + 13);
 		static const char *need[] = {"stream: unanswered request got exactly one default reply", "stream: explicit reply on the wire once, marked", "stream: mpt_context_reply on the wire once, marked",
 			"stream: second reply attempt refused, one reply on the wire", "stream: retry after busy transport accepted, one reply on the wire", "stream: zero id, no reply context, nothing sent",
-			"stream: defer unsupported (NULL), one default reply"};
+			"stream: defer unsupported (NULL), one default reply", "stream: handler returned an error, exactly one reply on the wire"};
 		for (const char *k : need) r.require(k);
 		if (l == 2) r.sample("stream input idlen=2: 1..2 COBS requests over a socketpair x handler scripts {no answer, reply, reply twice, reply while busy, busy+retry, defer, mpt_context_reply}; replies read back from the peer's end");
 		dfs(r, [&](Ctx &x) { stream_case(r, x, l); });
